@@ -253,6 +253,43 @@ func rulesPersist(c *Ctx) {
 		} else {
 			c.ok("E1", fk+"→EventWrite#persist", app.Pos(), "head persistence dominates the emission of EventWrite")
 		}
+		// --- E1, third clause: the refresh that precedes the event succeeded. Where the refresh
+		// step reports an error, the emission comes after the test of that error, on its
+		// succeeding side: emitted first and tested afterwards, a write that is reported as
+		// failed still announces its entry
+		for _, g := range chain {
+			eachCall(g, func(u ssa.CallInstruction) {
+				if _, isGo := u.(*ssa.Go); isGo || !c.isSite(kUpd, u) || !hasErrResult(u) {
+					return
+				}
+				ev := errResult(u)
+				if ev == nil {
+					return
+				}
+				ts := errTests(ev)
+				eachCall(g, func(em ssa.CallInstruction) {
+					if _, isGo := em.(*ssa.Go); isGo || !c.isSite(kEmitWrite, em) || !dominates(u.Block(), em.Block()) {
+						return
+					}
+					// the same call refreshes and emits (a helper): judged inside the helper
+					if ssa.Instruction(u) == ssa.Instruction(em) || (u.Block() == em.Block() && instrIndex(u) > instrIndex(em)) {
+						return
+					}
+					okSide := false
+					for _, t := range ts {
+						if t.Ok != nil && branchCovers(t.Ok, em.Block()) {
+							okSide = true
+						}
+					}
+					cons := fnKey(g) + "→EventWrite#refresh-succeeded"
+					if okSide {
+						c.ok("E1", cons, em.Pos(), "the write event is emitted on the succeeding side of the view refresh's error test")
+					} else {
+						c.bad("E1", cons, em.Pos(), "the write event is emitted before the error of the view refresh is looked at (or on its failing side): a write whose refresh failed is reported as failed to the writer and still announced to subscribers, whose queries do not show the entry")
+					}
+				})
+			})
+		}
 		// --- I4 (write path): refresh before acknowledging
 		if ok, hit, tr := ackHolds(app, kUpd, true, 0); !ok {
 			c.bad("I4", fk+"→Append→ack", hit.Pos(), "a successful return is reachable after Append without refreshing the view", c.trailStr(tr)...)
